@@ -1,6 +1,9 @@
 """C16 — streaming destinations are written strictly in order, each byte once"""
 from vlib import fakes as F
 
+# private-attribute groups (vlib/layout.py) the obligations of this module depend on
+LAYOUT = ['manager', 'coord', 'task', 'bex', 'tasksem', 'sws'] + ['defer', 'cci']
+
 EXPLANATION = (
     'C16: the real DeferQueue (and DownloadNonSeekableOutputManager.queue_file_io_task around it) is driven with '
     'delivery histories exactly as the property quantifies them — disjoint consecutive parts, per part up to 3 '
